@@ -34,7 +34,7 @@ extern "C" void ezc3d_verif_on_data_decl(size_t nFrames, size_t nPoints, size_t 
     if (!h.on) return;
     // saturating product
     long double d = static_cast<long double>(nFrames) * (4.0L * nPoints + static_cast<long double>(nAnalogs) * nSub) * 4.0L
-                    + static_cast<long double>(nFrames) * 64.0L;
+                    + static_cast<long double>(nFrames) * 64.0L + static_cast<long double>(nFrames) * static_cast<long double>(nSub) * 32.0L;
     h.declared = d > 1e18L ? static_cast<unsigned long long>(1e18L) : static_cast<unsigned long long>(d);
     if (h.declLimitBytes && h.declared > h.declLimitBytes) { h.declExceeded = true; throw "budget-decl: declared data far beyond the file size"; }
 }
